@@ -424,6 +424,11 @@ def _eval(t, env, depth):
             if n == 'min':
                 return AV(_min(x.lo, y.lo) if (x.lo is not None and y.lo is not None) else None, x.hi if y.hi is None else (y.hi if x.hi is None else min(x.hi, y.hi)))
             return AV(x.lo if y.lo is None else (y.lo if x.lo is None else max(x.lo, y.lo)), _max(x.hi, y.hi) if (x.hi is not None and y.hi is not None) else None)
+        if n == 'ssub':
+            r = add(eval_av(a[0], env), eval_av(a[1], env), -1)
+            return AV(Fraction(0) if (r.lo is None or r.lo < 0) else r.lo, None if r.hi is None else max(Fraction(0), r.hi))
+        if n == 'powi' and len(a) == 2 and a[1][0] == 'int' and a[1][1] == 2:
+            return _eval(('op', 'mul', (a[0], a[0])), env, depth)
         if n == 'len':
             return AV(Fraction(0), Fraction(U64MAX))
         if n == 'index':
